@@ -3,7 +3,7 @@
    failing or panicking lines, and for every outcome of the load (ok, error, panic). *)
 From Coq Require Import List String NArith ZArith Bool.
 From AM Require Import Rust.Ast Gen.Records Gen.Deps Ref.Load Ref.Sys Proofs.SysGrows Proofs.SysFrame Proofs.SysRecs
-  Proofs.SysReload Tie.Records Tie.Erasure.
+  Proofs.SysReload Tie.Records Tie.Erasure Tie.Static.
 Import ListNotations.
 
 (* values already cached are untouched, whatever happens *)
@@ -38,6 +38,10 @@ Proof. exact reload_one_rid. Qed.
 
 Theorem C09_code_treats_a_panicking_reload_as_failed : reload_catches DepsGraph_reload = true.
 Proof. exact reload_panic_is_a_failed_reload. Qed.
+
+Theorem C09_code_failed_reload_keeps_the_old_dependencies :
+  reload_result_wf Gen.Anycache.AnyCache_reload_untyped = true.
+Proof. exact reload_keeps_old_dependencies_on_failure. Qed.
 
 (* the reloader's own state (graph, changed entries) is never touched by a load on a caller thread *)
 Theorem C09_loads_leave_reloader_state : forall fuel s t id,
